@@ -1,2 +1,268 @@
-(* Proofs/TotalProofs.v *)
+(* Proofs/TotalProofs.v — C18: every iterator of the library (Model/Iterators.v)
+   behaves like "call yield on each item in order until it answers false"
+   ([IterProofs.behaves]); stop-safety then is [IterProofs.stop_safe].
+   For the formats whose loop ends after an error this needs: an error item is
+   the last item of what read() delivers ([error_last (decode w t)]). *)
 From Bio Require Import Base.
+From Bio.Model Require Import Iter Iterators.
+From Bio.Model Require Fasta Fastq Sam Bed Newick Trie Seq.
+From Bio.Spec Require NewickSpec TrieSpec.
+From Bio.Proofs Require Import IterProofs.
+From Bio.Proofs Require FastqProofsB NewickProofs NewickProofsC TrieProofsC.
+
+(* ---- error_last from the shape "records, then at most one error" ------------------ *)
+Lemma error_last_recs {A} (rs : list A) : error_last (map Rec rs).
+Proof. unfold error_last. induction rs as [|r rs IH]; cbn [map cut]; [|rewrite IH]; reflexivity. Qed.
+
+Lemma error_last_recs_err {A} (rs : list A) : error_last (map Rec rs ++ [ErrItem]).
+Proof. unfold error_last. induction rs as [|r rs IH]; cbn [map cut app]; [|rewrite IH]; reflexivity. Qed.
+
+Definition is_rec {A} (i : item A) : Prop := match i with Rec _ => True | ErrItem => False end.
+
+Lemma all_rec_map {A} (l : list (item A)) : Forall is_rec l -> exists rs, l = map Rec rs.
+Proof.
+  induction 1 as [|i l Hi _ [rs E]]; [exists []; reflexivity|].
+  destruct i as [a|]; [|destruct Hi]. exists (a :: rs). cbn [map]. rewrite E. reflexivity.
+Qed.
+
+Lemma error_last_cons {A} (a : A) l : error_last l -> error_last (Rec a :: l).
+Proof. unfold error_last. intros H. cbn [cut]. rewrite H. reflexivity. Qed.
+
+(* ---- fasta ---------------------------------------------------------------------------- *)
+Lemma fasta_fuel_error_last : forall f inp t, error_last (Fasta.decode_fuel f inp t).
+Proof.
+  induction f as [|f IH]; intros inp t; cbn [Fasta.decode_fuel]; [reflexivity|].
+  destruct (Fasta.read_one inp t) as [r rest| |]; [apply error_last_cons, IH | reflexivity | reflexivity].
+Qed.
+
+Lemma fasta_error_last w t : error_last (Fasta.decode w t).
+Proof. apply fasta_fuel_error_last. Qed.
+
+Lemma fasta_iter_behaves w t : behaves (fasta_iter w t) (Fasta.decode w t).
+Proof. apply iter_behaves_error_last, fasta_error_last. Qed.
+Lemma fasta_reader_behaves w t : behaves (fasta_reader w t) (Fasta.decode w t).
+Proof. apply wrap_guarded_behaves, fasta_iter_behaves. Qed.
+Lemma fasta_file_behaves opened w t :
+  behaves (fasta_file opened w t) (if opened then Fasta.decode w t else [ErrItem]).
+Proof. apply file_wrap_behaves, fasta_reader_behaves. Qed.
+
+(* ---- fastq ---------------------------------------------------------------------------- *)
+Lemma fastq_error_last w t : error_last (Fastq.decode w t).
+Proof.
+  destruct (FastqProofsB.decode_shape w t) as [rs [_ [E|[_ E]]]]; rewrite E;
+    [apply error_last_recs_err | apply error_last_recs].
+Qed.
+
+Lemma fastq_iter_behaves w t : behaves (fastq_iter w t) (Fastq.decode w t).
+Proof. apply iter_behaves_error_last, fastq_error_last. Qed.
+Lemma fastq_reader_behaves w t : behaves (fastq_reader w t) (Fastq.decode w t).
+Proof. apply wrap_guarded_behaves, fastq_iter_behaves. Qed.
+Lemma fastq_file_behaves opened w t :
+  behaves (fastq_file opened w t) (if opened then Fastq.decode w t else [ErrItem]).
+Proof. apply file_wrap_behaves, fastq_reader_behaves. Qed.
+
+(* ---- bed ------------------------------------------------------------------------------ *)
+Lemma bed_lines_error_last : forall ls n tail t, error_last (Bed.dec_lines n ls tail t).
+Proof.
+  induction ls as [|l r IH]; intros n tail t; cbn [Bed.dec_lines].
+  - destruct t; [|reflexivity]. destruct (Bed.do_line n tail); reflexivity.
+  - destruct (Bed.do_line n l); [apply IH | reflexivity | apply error_last_cons, IH].
+Qed.
+
+Lemma bed_error_last w t : error_last (Bed.decode w t).
+Proof. unfold Bed.decode. destruct (rs_lines w) as [ls tail]. apply bed_lines_error_last. Qed.
+
+Lemma bed_reader_behaves w t : behaves (bed_reader w t) (Bed.decode w t).
+Proof. unfold bed_reader, reader_loop. apply iter_behaves_error_last, bed_error_last. Qed.
+Lemma bed_file_behaves opened w t :
+  behaves (bed_file opened w t) (if opened then Bed.decode w t else [ErrItem]).
+Proof. apply file_wrap_behaves, bed_reader_behaves. Qed.
+
+(* ---- newick --------------------------------------------------------------------------- *)
+Lemma error_last_rev_recs {A} (acc : list (item A)) : Forall is_rec acc -> error_last (rev acc).
+Proof.
+  intros H. destruct (all_rec_map (rev acc)) as [rs E]; [apply Forall_rev, H|].
+  rewrite E. apply error_last_recs.
+Qed.
+
+Lemma error_last_rev_err {A} (acc : list (item A)) : Forall is_rec acc -> error_last (rev (ErrItem :: acc)).
+Proof.
+  intros H. cbn [rev]. destruct (all_rec_map (rev acc)) as [rs E]; [apply Forall_rev, H|].
+  rewrite E. apply error_last_recs_err.
+Qed.
+
+Lemma newick_loop_shape o tm : forall fuel s acc, Forall is_rec acc ->
+  Newick.decode_loop o fuel s tm acc = Panic \/
+  exists l, Newick.decode_loop o fuel s tm acc = Ok l /\ error_last l.
+Proof.
+  induction fuel as [|f IH]; intros s acc Hacc; cbn [Newick.decode_loop]; [left; reflexivity|].
+  destruct (Newick.read_tree o s tm) as [t rest| | |].
+  - apply IH. constructor; [exact I | exact Hacc].
+  - right. eexists. split; [reflexivity | apply error_last_rev_recs, Hacc].
+  - right. eexists. split; [reflexivity | apply error_last_rev_err, Hacc].
+  - left. reflexivity.
+Qed.
+
+(* the reader never panics (C05) and delivers records, then at most one error *)
+Lemma newick_decode_ok o w t : exists l, Newick.decode o w t = Ok l /\ error_last l.
+Proof.
+  destruct (newick_loop_shape o t (S (length w)) w [] (Forall_nil _)) as [P|H]; [|exact H].
+  exfalso. exact (NewickProofsC.decode_no_panic o w t P).
+Qed.
+
+Lemma newick_error_last o w t : error_last (ok_items (Newick.decode o w t)).
+Proof. destruct (newick_decode_ok o w t) as [l [E H]]. rewrite E. exact H. Qed.
+
+Lemma newick_reader_behaves o w t :
+  behaves (newick_reader o w t) (ok_items (Newick.decode o w t)).
+Proof. unfold newick_reader, reader_loop. apply iter_behaves_error_last, newick_error_last. Qed.
+Lemma newick_file_behaves opened o w t :
+  behaves (newick_file opened o w t) (if opened then ok_items (Newick.decode o w t) else [ErrItem]).
+Proof. apply file_wrap_behaves, newick_reader_behaves. Qed.
+
+(* ---- sam ------------------------------------------------------------------------------ *)
+Lemma sam_keep_is_reader_filter l : filter_map sam_keep l = flat_map Sam.reader_filter l.
+Proof.
+  induction l as [|i r IH]; [reflexivity|]. cbn [filter_map flat_map].
+  destruct i as [[h|a]|]; cbn [sam_keep Sam.reader_filter app]; rewrite IH; reflexivity.
+Qed.
+
+Lemma sam_reader_header_behaves o w t :
+  behaves (sam_reader_header o w t) (Sam.reader_header o w t).
+Proof. apply guarded_behaves. Qed.
+Lemma sam_reader_behaves o w t : behaves (sam_reader o w t) (Sam.reader o w t).
+Proof.
+  unfold Sam.reader. rewrite <- sam_keep_is_reader_filter.
+  apply filter_wrap_behaves, sam_reader_header_behaves.
+Qed.
+Lemma sam_file_behaves opened o w t :
+  behaves (sam_file opened o w t) (if opened then Sam.reader o w t else [ErrItem]).
+Proof. apply file_wrap_behaves, sam_reader_behaves. Qed.
+Lemma sam_file_header_behaves opened o w t :
+  behaves (sam_file_header opened o w t) (if opened then Sam.reader_header o w t else [ErrItem]).
+Proof. apply file_wrap_behaves, sam_reader_header_behaves. Qed.
+
+(* ---- traversals, ForEach, CanonicalSubsequences ---------------------------------------- *)
+Lemma pre_order_behaves tr : behaves (pre_order tr) (NewickSpec.preorder tr).
+Proof. unfold pre_order. rewrite NewickProofs.traverse_preorder. apply guarded_behaves. Qed.
+Lemma post_order_behaves tr : behaves (post_order tr) (NewickSpec.postorder tr).
+Proof. unfold post_order. rewrite NewickProofs.traverse_postorder. apply guarded_behaves. Qed.
+
+Lemma for_each_behaves tr : behaves (for_each tr) (TrieSpec.members tr).
+Proof. unfold for_each. rewrite TrieProofsC.for_each_members. apply guarded_behaves. Qed.
+
+Lemma canonical_behaves s k items : Seq.canon s k = Ok items ->
+  behaves (canonical_subsequences s k) items.
+Proof. intros E. unfold canonical_subsequences. rewrite E. apply guarded_behaves. Qed.
+
+(* ---- the statements of Properties/C18.v -------------------------------------------------- *)
+Section StopSafe.
+Variable p : nat.
+
+Lemma fasta_iter_stop w t : run_until (fasta_iter w t) p = (taken p (Fasta.decode w t), Done).
+Proof. apply stop_safe, fasta_iter_behaves. Qed.
+Lemma fasta_reader_stop w t : run_until (fasta_reader w t) p = (taken p (Fasta.decode w t), Done).
+Proof. apply stop_safe, fasta_reader_behaves. Qed.
+Lemma fasta_file_stop opened w t :
+  run_until (fasta_file opened w t) p = (taken p (if opened then Fasta.decode w t else [ErrItem]), Done).
+Proof. apply stop_safe, fasta_file_behaves. Qed.
+
+Lemma fastq_iter_stop w t : run_until (fastq_iter w t) p = (taken p (Fastq.decode w t), Done).
+Proof. apply stop_safe, fastq_iter_behaves. Qed.
+Lemma fastq_reader_stop w t : run_until (fastq_reader w t) p = (taken p (Fastq.decode w t), Done).
+Proof. apply stop_safe, fastq_reader_behaves. Qed.
+Lemma fastq_file_stop opened w t :
+  run_until (fastq_file opened w t) p = (taken p (if opened then Fastq.decode w t else [ErrItem]), Done).
+Proof. apply stop_safe, fastq_file_behaves. Qed.
+
+Lemma bed_reader_stop w t : run_until (bed_reader w t) p = (taken p (Bed.decode w t), Done).
+Proof. apply stop_safe, bed_reader_behaves. Qed.
+Lemma bed_file_stop opened w t :
+  run_until (bed_file opened w t) p = (taken p (if opened then Bed.decode w t else [ErrItem]), Done).
+Proof. apply stop_safe, bed_file_behaves. Qed.
+
+Lemma newick_reader_stop o w t :
+  exists items, Newick.decode o w t = Ok items /\
+    run_until (newick_reader o w t) p = (taken p items, Done).
+Proof.
+  destruct (newick_decode_ok o w t) as [l [E _]]. exists l. split; [exact E|].
+  rewrite (stop_safe _ _ p (newick_reader_behaves o w t)). rewrite E. reflexivity.
+Qed.
+Lemma newick_file_stop opened o w t :
+  exists items, Newick.decode o w t = Ok items /\
+    run_until (newick_file opened o w t) p = (taken p (if opened then items else [ErrItem]), Done).
+Proof.
+  destruct (newick_decode_ok o w t) as [l [E _]]. exists l. split; [exact E|].
+  rewrite (stop_safe _ _ p (newick_file_behaves opened o w t)). rewrite E. reflexivity.
+Qed.
+
+Lemma sam_reader_header_stop o w t :
+  run_until (sam_reader_header o w t) p = (taken p (Sam.reader_header o w t), Done).
+Proof. apply stop_safe, sam_reader_header_behaves. Qed.
+Lemma sam_reader_stop o w t : run_until (sam_reader o w t) p = (taken p (Sam.reader o w t), Done).
+Proof. apply stop_safe, sam_reader_behaves. Qed.
+Lemma sam_file_stop opened o w t :
+  run_until (sam_file opened o w t) p = (taken p (if opened then Sam.reader o w t else [ErrItem]), Done).
+Proof. apply stop_safe, sam_file_behaves. Qed.
+Lemma sam_file_header_stop opened o w t :
+  run_until (sam_file_header opened o w t) p
+  = (taken p (if opened then Sam.reader_header o w t else [ErrItem]), Done).
+Proof. apply stop_safe, sam_file_header_behaves. Qed.
+
+Lemma pre_order_stop tr : run_until (pre_order tr) p = (taken p (NewickSpec.preorder tr), Done).
+Proof. apply stop_safe, pre_order_behaves. Qed.
+Lemma post_order_stop tr : run_until (post_order tr) p = (taken p (NewickSpec.postorder tr), Done).
+Proof. apply stop_safe, post_order_behaves. Qed.
+
+Lemma canonical_stop s k items : Seq.canon s k = Ok items ->
+  run_until (canonical_subsequences s k) p = (taken p items, Done).
+Proof. intros E. apply stop_safe, canonical_behaves, E. Qed.
+End StopSafe.
+
+(* ForEach: the items seen are leading items of the full report, which is the
+   duplicate-free list of the members; and the model of the family property
+   (Trie.for_each_until, the callback "false at the p-th call" built into the
+   stack loop) sees exactly what the generic consumer sees. *)
+Lemma taken_incl {A} p (l : list A) : incl (taken p l) l.
+Proof.
+  unfold taken. destruct p; [apply incl_refl|].
+  intros x H. rewrite <- (firstn_skipn (S p) l). apply in_or_app. left. exact H.
+Qed.
+
+Lemma NoDup_firstn {A} n (l : list A) : NoDup l -> NoDup (firstn n l).
+Proof.
+  intros H. revert n. induction H as [|x l Hx H IH]; intros [|n]; cbn [firstn]; try constructor.
+  - intros Hin. apply Hx. rewrite <- (firstn_skipn n l). apply in_or_app. left. exact Hin.
+  - apply IH.
+Qed.
+
+Lemma taken_nodup {A} p (l : list A) : NoDup l -> NoDup (taken p l).
+Proof. unfold taken. destruct p; [auto | apply NoDup_firstn]. Qed.
+
+Lemma for_each_stop p tr :
+  run_until (for_each tr) p = (taken p (TrieSpec.members tr), Done)
+  /\ incl (taken p (TrieSpec.members tr)) (TrieSpec.members tr)
+  /\ (TrieSpec.wf tr -> NoDup (taken p (TrieSpec.members tr)))
+  /\ (p <> 0%nat -> Trie.for_each_until p tr = Ok (fst (run_until (for_each tr) p))).
+Proof.
+  pose proof (stop_safe _ _ p (for_each_behaves tr)) as E.
+  split; [exact E|]. split; [apply taken_incl|]. split.
+  - intros W. apply taken_nodup.
+    destruct (TrieProofsC.for_each_exact tr W) as [l [El [_ ND]]].
+    rewrite TrieProofsC.for_each_members in El. injection El as <-. exact ND.
+  - intros Hp. rewrite E. cbn [fst]. rewrite (TrieProofsC.for_each_until_firstn p Hp).
+    unfold taken. destruct p; [contradiction | reflexivity].
+Qed.
+
+(* ---- the model exhibits the failure the property is about -------------------------------- *)
+(* ">a" LF "A" LF ">b" LF "C" LF read by a Reader whose range body ignores yield's answer *)
+Definition ex_fasta_text : bytes := [62; 97; 10; 65; 10; 62; 98; 10; 67; 10].
+
+Lemma broken_adapter_caught :
+  run_until (fasta_reader_broken ex_fasta_text TEOF) 1
+    = ([Rec {| Fasta.name := [97]; Fasta.seq := [65] |}], PanicAfterStop)
+  /\ run_until (fasta_reader ex_fasta_text TEOF) 1
+    = ([Rec {| Fasta.name := [97]; Fasta.seq := [65] |}], Done)
+  /\ run_until (fasta_reader_broken ex_fasta_text TEOF) 2
+    = ([Rec {| Fasta.name := [97]; Fasta.seq := [65] |}; Rec {| Fasta.name := [98]; Fasta.seq := [67] |}], Done).
+Proof. vm_compute. repeat split. Qed.
